@@ -44,7 +44,12 @@ def cases(draw):
             prog.append(["g", "G1 X%s Y%s" % (gen.fmt(rnd.lx("x", tx)), gen.fmt(rnd.lx("y", ty)))])
             for _ in range(draw(st.integers(1, 3))):
                 prog.append(["g", draw(st.sampled_from(["M117 done soon", "M204 S400", "M204 T900", "M73 P99", "M106 S0", "G4 P10", "M205 X6"]))])
-            if draw(st.integers(0, 3)) > 0:
+            k = draw(st.integers(0, 5))
+            if k >= 3:
+                prog.append(["hook", "gcode", "afterPrintDone"])
+            elif k >= 1:
+                # the print ends (or pauses) first, then the hook is invoked with the episode still open
+                prog.append(["event", draw(st.sampled_from(["PRINT_CANCELLING", "PRINT_CANCELLED", "PRINT_FAILED", "ERROR", "PRINT_DONE", "PRINT_PAUSED"]))])
                 prog.append(["hook", "gcode", "afterPrintDone"])
     tail = draw(st.lists(st.one_of(st.sampled_from(HOOKS).map(list),
                                    st.sampled_from(["PRINT_DONE", "PRINT_CANCELLED", "PRINT_CANCELLING", "PRINT_FAILED", "ERROR", "PRINT_PAUSED", "PRINT_RESUMED"]).map(lambda n: ["event", n])),
